@@ -86,6 +86,25 @@ fn residual_signal(rng: &mut Rng, n: usize, class: usize) -> Vec<i32> {
             // heavy tail: mostly small with rare huge values
             (0..n).map(|_| if rng.chance(3) { rng.range(-lim, lim) as i32 } else { rng.range(-8, 8) as i32 }).collect()
         }
+        9 => {
+            // exactly-zero partitions of 64 (digital silence, exactly predicted stretches) next to active ones
+            let amp = *rng.pick(&[3i64, 40, 300, 40000]);
+            let phase = rng.below(2) as usize;
+            (0..n).map(|t| if (t / 64) % 2 == phase { 0 } else { rng.range(-amp, amp) as i32 }).collect()
+        }
+        10 => {
+            // zero gaps of arbitrary position and length inside an active signal
+            let amp = *rng.pick(&[7i64, 120, 5000]);
+            let mut v: Vec<i32> = (0..n).map(|_| rng.range(-amp, amp) as i32).collect();
+            for _ in 0..1 + rng.below(3) {
+                let a = rng.below(n as u64) as usize;
+                let l = 32 + rng.below(200) as usize;
+                for x in v.iter_mut().skip(a).take(l) {
+                    *x = 0;
+                }
+            }
+            v
+        }
         _ => vec![0; n],
     }
 }
@@ -102,7 +121,7 @@ pub fn generate(seed: u64, cases: usize, out: &mut dyn FnMut(String)) {
     let sizes = [64usize, 65, 96, 128, 192, 256, 320, 512, 576, 1024, 1152, 2048, 4096, 4608, 8192];
     for i in 0..cases {
         let n = if i % 5 == 0 { 64 + rng.below(448) as usize } else { *rng.pick(&sizes) };
-        let class = (i % 9) as usize;
+        let class = (i % 11) as usize;
         let warm = match rng.below(6) {
             0 => 0,
             1 => 32.min(n),
@@ -237,6 +256,53 @@ pub fn generate(seed: u64, cases: usize, out: &mut dyn FnMut(String)) {
         let o14 = if a == b { "ok".to_string() } else { format!("fail:context_after_integer_delivery_{a}_after_byte_delivery_{b}") };
         out(format!(
             "kernel id=ctx{i} cls=ctx|c{ch}|b{bps}|{} fn=ctx ch={ch} bps={bps} lens={} data={} impl_int={a} impl_bytes={b} o_c14={o14}",
+            lens.iter().filter(|n| **n == 0).count(), lens.iter().map(|n| n.to_string()).collect::<Vec<_>>().join(","), ints(&data)
+        ));
+    }
+    // ---- FrameBuf filled block by block through both delivery paths, including zero-length deliveries and
+    // a shorter block after a full one (C14: identical per-channel samples and fill level)
+    for i in 0..12usize {
+        let ch = 1 + (i % 3);
+        let bps = gen::BPS[i % gen::BPS.len()];
+        let k = (bps + 7) / 8;
+        let size = 32usize;
+        let lens: Vec<usize> = match i % 6 {
+            0 => vec![32, 0],
+            1 => vec![32, 31],
+            2 => vec![0],
+            3 => vec![17, 0, 5],
+            4 => vec![32, 16, 0, 32],
+            _ => (0..1 + rng.below(4)).map(|_| if rng.chance(30) { 0 } else { 1 + rng.below(32) as usize }).collect(),
+        };
+        let total: usize = lens.iter().sum();
+        let data: Vec<i32> = (0..total * ch).map(|_| rng.range(-(1i64 << (bps - 1)), (1i64 << (bps - 1)) - 1) as i32).collect();
+        let run = |bytes_path: bool| -> String {
+            use flacenc::source::Fill;
+            let mut fb = flacenc::source::FrameBuf::with_size(ch, size).unwrap();
+            let mut pos = 0usize;
+            let mut steps = vec![];
+            for n in &lens {
+                let block = &data[pos * ch..(pos + n) * ch];
+                let r = if bytes_path {
+                    let b: Vec<u8> = block.iter().flat_map(|v| v.to_le_bytes()[..k].to_vec()).collect();
+                    fb.fill_le_bytes(&b, k)
+                } else {
+                    fb.fill_interleaved(block)
+                };
+                if r.is_err() {
+                    steps.push("err".to_string());
+                } else {
+                    let slices: Vec<String> = (0..ch).map(|c| ints(&vh::framebuf_channel(&fb, c))).collect();
+                    steps.push(format!("{}:{}", fb.filled_size(), slices.join("/")));
+                }
+                pos += n;
+            }
+            steps.join(";")
+        };
+        let (a, b) = (run(false), run(true));
+        let o14 = if a == b { "ok".to_string() } else { "fail:frame_buffer_differs_between_integer_and_byte_delivery".to_string() };
+        out(format!(
+            "kernel id=fb{i} cls=fbuf|c{ch}|b{bps}|{} fn=fbuf ch={ch} bps={bps} size={size} lens={} data={} impl_int={a} impl_bytes={b} o_c14={o14}",
             lens.iter().filter(|n| **n == 0).count(), lens.iter().map(|n| n.to_string()).collect::<Vec<_>>().join(","), ints(&data)
         ));
     }
